@@ -1,6 +1,24 @@
 // In-crate child probe of acmed/src/certificate.rs (feature breard_r_acmed_verif).
 #![allow(dead_code, unused_imports)]
 use super::*;
+// Named explicitly so that this probe does not depend on which names the parent file happens to import
+// (a clean-up of an unused import there must not break the hooked build).
+#[allow(unused_imports)]
+use std::time::Duration;
+#[allow(unused_imports)]
+use acme_common::error::Error;
+#[allow(unused_imports)]
+use crate::storage::FileManager;
+#[allow(unused_imports)]
+use acme_common::crypto::HashFunction;
+#[allow(unused_imports)]
+use std::collections::HashMap;
+#[allow(unused_imports)]
+use crate::identifier::Identifier;
+#[allow(unused_imports)]
+use crate::identifier::IdentifierType;
+#[allow(unused_imports)]
+use acme_common::crypto::KeyType;
 use serde_json::{json, Value};
 
 fn opt_s(v: &Value) -> Option<String> {
